@@ -106,6 +106,13 @@ fn write_doc(d: &Doc, nl: bool, sink: &mut FaultSink) -> bool {
     fin && (d.is_empty() || inner_ok)
 }
 
+/// what the sink holds when it never fails
+pub fn fault_free(d: &Doc, nl: bool) -> String {
+    let mut sink = FaultSink::new(None, false);
+    let _ = guarded(|| write_doc(d, nl, &mut sink));
+    sink.buf
+}
+
 fn off(input: &str, s: &str) -> String {
     if s.is_empty() {
         "-".to_string()
@@ -210,7 +217,7 @@ fn parse_all(cx: &mut Ctx, line: &str, input: &str, oracle: bool) -> Option<(Str
     }
 }
 
-fn case_parse(cx: &mut Ctx, input: &str) {
+pub fn case_parse(cx: &mut Ctx, input: &str) {
     let line = format!("LF parse {}", hex(input.as_bytes()));
     match parse_all(cx, &line, input, true) {
         None => cx.case(&line, "panic"),
@@ -228,7 +235,7 @@ fn case_parse(cx: &mut Ctx, input: &str) {
     }
 }
 
-fn case_cow(cx: &mut Ctx, s: &str) {
+pub fn case_cow(cx: &mut Ctx, s: &str) {
     let line = format!("LF cow {}", hex(s.as_bytes()));
     let r = guarded(|| {
         let u = Unquote::new(s);
@@ -274,7 +281,7 @@ fn doc_wf(d: &Doc) -> bool {
     })
 }
 
-fn case_write(cx: &mut Ctx, d: &Doc, nl: bool) -> usize {
+pub fn case_write(cx: &mut Ctx, d: &Doc, nl: bool) -> usize {
     let line = format!("LF write {} {}", nl as u8, doc_token(d));
     let r = guarded(|| {
         let mut sink = FaultSink::new(None, false);
@@ -323,7 +330,7 @@ fn case_write(cx: &mut Ctx, d: &Doc, nl: bool) -> usize {
     }
 }
 
-fn case_writef(cx: &mut Ctx, d: &Doc, nl: bool, k: usize, persist: bool, full: &str) {
+pub fn case_writef(cx: &mut Ctx, d: &Doc, nl: bool, k: usize, persist: bool, full: &str) {
     let line = format!("LF writef {} {} {} {}", nl as u8, k, if persist { "persist" } else { "once" }, doc_token(d));
     let r = guarded(|| {
         let mut sink = FaultSink::new(Some(k), persist);
